@@ -25,7 +25,11 @@ type GoldenImage struct {
 	Provenance string            `json:"provenance"`
 	Cfg        Config            `json:"config"`
 	DefaultOptions bool          `json:"default_options,omitempty"` // created with NewRoot(nil)
-	Entries    []Entry           `json:"entries"` // ascending key order (harness order)
+	Entries    []Entry           `json:"entries"` // ascending key order (harness order); indexes at generation time
+	// the concrete keys and values as JSON, in the same order: the image is self-contained and does
+	// not depend on how the harness's dialects map indexes to keys/values today
+	KeysJSON   []json.RawMessage `json:"keys_json"`
+	ValsJSON   []json.RawMessage `json:"vals_json"`
 	Root       json.RawMessage   `json:"root"`
 	Nodes      map[string]string `json:"nodes"` // name -> hex bytes
 }
@@ -93,6 +97,10 @@ func WriteGolden(dir, provenance string) error {
 			if err := m.Insert(ctx, kd.Key(e.K), vd.Val(e.V)); err != nil {
 				return err
 			}
+			kj, _ := json.Marshal(kd.Key(e.K))
+			vj, _ := json.Marshal(vd.Val(e.V))
+			img.KeysJSON = append(img.KeysJSON, kj)
+			img.ValsJSON = append(img.ValsJSON, vj)
 		}
 		r, err := m.MakeRoot(ctx)
 		if err != nil {
@@ -143,9 +151,28 @@ func checkGoldenImage(t *testing.T, path string, seed uint64) (sig, detail strin
 		bb, _ := hex.DecodeString(h)
 		disk.Put(n, bb)
 	}
+	if len(img.KeysJSON) != len(img.Entries) || len(img.ValsJSON) != len(img.Entries) {
+		return "HARNESS", "image without concrete keys/values: " + path, 0
+	}
+	keys := make([]interface{}, len(img.Entries))
+	vals := make([]interface{}, len(img.Entries))
 	var want []string
-	for _, e := range img.Entries {
-		want = append(want, fmt.Sprintf("%d=%s", e.K, valRepr(vd.Val(e.V))))
+	for i := range img.Entries {
+		pk := newPtrLike(kd.Like())
+		pv := newPtrLike(vd.Like())
+		if err := json.Unmarshal(img.KeysJSON[i], pk); err != nil {
+			return "HARNESS", err.Error(), 0
+		}
+		if err := json.Unmarshal(img.ValsJSON[i], pv); err != nil {
+			return "HARNESS", err.Error(), 0
+		}
+		keys[i], vals[i] = derefPtr(pk), derefPtr(pv)
+		want = append(want, string(img.KeysJSON[i])+"="+string(img.ValsJSON[i]))
+	}
+	jsonOf := func(k, v interface{}) string {
+		kj, _ := json.Marshal(k)
+		vj, _ := json.Marshal(v)
+		return string(kj) + "=" + string(vj)
 	}
 	var got []string
 	res := guard(func() error {
@@ -154,12 +181,7 @@ func checkGoldenImage(t *testing.T, path string, seed uint64) (sig, detail strin
 			return err
 		}
 		return m.Iter(ctx, func(k, v interface{}) error {
-			ki, ok := kd.Index(k)
-			if !ok {
-				got = append(got, "?"+keyString(k))
-				return nil
-			}
-			got = append(got, fmt.Sprintf("%d=%s", ki, valRepr(v)))
+			got = append(got, jsonOf(k, v))
 			return nil
 		})
 	})
@@ -198,30 +220,34 @@ func checkGoldenImage(t *testing.T, path string, seed uint64) (sig, detail strin
 		if err != nil {
 			return err
 		}
-		order := append([]Entry(nil), img.Entries...)
+		order := make([]int, len(img.Entries))
+		for i := range order {
+			order[i] = i
+		}
 		for i := len(order) - 1; i > 0; i-- {
 			j := g.Intn(i + 1)
 			order[i], order[j] = order[j], order[i]
 		}
-		inModel := map[int]bool{}
-		for _, e := range order {
-			inModel[e.K] = true
+		inModel := map[string]bool{}
+		for _, kj := range img.KeysJSON {
+			inModel[string(kj)] = true
 		}
 		var extras []int
 		for i := 0; i < 5; i++ {
 			k := g.Intn(cfg.U)
-			if !inModel[k] {
-				inModel[k] = true
+			kj, _ := json.Marshal(kd.Key(k))
+			if !inModel[string(kj)] {
+				inModel[string(kj)] = true
 				extras = append(extras, k)
 			}
 		}
-		for i, e := range order {
+		for i, ei := range order {
 			if i < len(extras) {
 				if err := m.Insert(ctx, kd.Key(extras[i]), vd.Val(1)); err != nil {
 					return err
 				}
 			}
-			if err := m.Insert(ctx, kd.Key(e.K), vd.Val(e.V)); err != nil {
+			if err := m.Insert(ctx, keys[ei], vals[ei]); err != nil {
 				return err
 			}
 		}
